@@ -131,7 +131,7 @@ pub const NAMES: &[&str] = &[
     "probe_refused_with_empty_output", "probe_refused_mid_output", "probe_refused_between_interpolation_pieces",
     "probe_budget_exactly_output_len", "probe_same_chunking_as_reference", "probe_different_chunking_than_reference",
     "probe_name_has_escaped_braces", "probe_name_multibyte", "probe_empty_name", "probe_plan_never_fired",
-    "fault_field_display_err_fired",
+    "fault_field_display_err_fired", "probe_interpolated_variant_under_nontrivial_caller_spec",
 ];
 const R_FIXED_UNIT: usize = 0;
 const R_INTERP_TUPLE: usize = 3;
@@ -156,6 +156,7 @@ const P_MB: usize = 24;
 const P_EMPTY: usize = 25;
 const P_PLAN_NOFIRE: usize = 26;
 const F_FIELD_ERR: usize = 27;
+const P_UNDEFINED_SPEC: usize = 28;
 
 pub struct Failure {
     pub oracle: &'static str,
@@ -195,10 +196,14 @@ pub fn exec(case: &Case, sc: &Script, mut stats: Option<&mut Stats>, keep_log: b
     if keep_log {
         info.log.push(format!("value = {}", subject.debug()));
     }
-    // a non-trivial caller spec on an interpolated variant is outside the statement
-    let call = match (&sc.call, v.fixed.is_some()) {
-        (Call::Spec(..), false) => Call::Spec(0, 0, 0),
-        (c, _) => c.clone(),
+    // A non-trivial caller spec on an interpolated variant is outside the statement (what the OUTPUT
+    // should be is undefined there), but the error contract of fmt is not: whatever the spec, a refused
+    // write must surface as Err and nothing may be written after it. So such calls are executed with
+    // `spec_defined = false`: no output oracle, only the error-propagation invariants.
+    let call = sc.call.clone();
+    let spec_defined = match (&call, v.fixed.is_some()) {
+        (Call::Spec(i, _, _), false) => *i % SPECS.len() == 0,
+        _ => true,
     };
     // ---- reference (fault-free sink; it can still end in Err when a payload's own Display fails) ----
     let (reference, ref_chunks, ref_ok): (String, Vec<u32>, bool) = {
@@ -344,6 +349,22 @@ pub fn exec(case: &Case, sc: &Script, mut stats: Option<&mut Stats>, keep_log: b
             }
         }
     }
+    if !spec_defined {
+        if let Some(st) = stats.as_deref_mut() {
+            st.hit(P_UNDEFINED_SPEC);
+        }
+        if outcome_sut.refused > 0 {
+            if outcome_sut.ok {
+                return (Err(mk_fail("error_swallowed", "Err (the sink refused a write)".into(), format!("Ok, sink holds {:?}", outcome_sut.accepted))), info);
+            }
+            if outcome_sut.accepted_after_refusal {
+                return (Err(mk_fail("wrote_after_refusal", "no write after the sink refused one".into(), format!("sink accepted more data after a refusal: {:?}", outcome_sut.accepted))), info);
+            }
+        } else if ref_ok && !outcome_sut.ok {
+            return (Err(mk_fail("spurious_error", "Ok (the sink accepted every write and no field failed)".into(), "Err".into())), info);
+        }
+        return (Ok(()), info);
+    }
     if !ref_ok && outcome_sut.refused == 0 {
         // a field's own Display failed: the generated code must return that error after the same output
         if outcome_sut.ok {
@@ -378,7 +399,7 @@ fn cover_key(v: &VariantInfo, spec_class: u64, plan_class: u64, outcome: u64) ->
 pub fn gen_script(rng: &mut Rng, case: &Case) -> Script {
     let vi = rng.usize_below(case.variants.len());
     let v = &case.variants[vi];
-    let payload: Vec<u64> = (0..v.nfields).map(|_| gen_pick_index(rng)).collect();
+    let payload: Vec<u64> = gen_payload(rng, v.nfields);
     let call = if rng.chance(8, 100) {
         Call::ToString
     } else if v.fixed.is_some() {
@@ -396,6 +417,9 @@ pub fn gen_script(rng: &mut Rng, case: &Case) -> Script {
             _ => rng.usize_below(40),
         };
         Call::Spec(i, w, p)
+    } else if rng.chance(25, 100) {
+        // interpolated variant under a non-trivial caller spec: error-propagation invariants only
+        Call::Spec(rng.usize_below(SPECS.len()), rng.usize_below(17), rng.usize_below(9))
     } else {
         Call::Spec(0, 0, 0)
     };
